@@ -92,7 +92,24 @@ class Unit:
         return t
 
     def local_kind(self, ex, name):
-        return self.contract.types.get(name)
+        k = self.contract.types.get(name)
+        if k is None:
+            k = self.annotated_kind(name)
+        return k
+
+    def annotated_kind(self, name):
+        """kind of a local from its own annotation in the source (`xs: list[Path] = []`), for locals the contract's
+        `types` does not know (e.g. introduced by a later change of the body)"""
+        simple = {"str": "str", "int": "int", "bool": "bool", "Path": "ref:Path"}
+        for n in ast.walk(self.fdef):
+            if isinstance(n, ast.AnnAssign) and isinstance(n.target, ast.Name) and n.target.id == name:
+                a = ast.unparse(n.annotation).replace(" ", "")
+                if a in simple:
+                    return simple[a]
+                for outer in ("list", "set"):
+                    if a.startswith(outer + "[") and a.endswith("]") and a[len(outer) + 1:-1] in simple and outer == "list":
+                        return "list[%s]" % simple[a[5:-1]]
+        return None
 
     def field_kind(self, cls, f):
         return self.contract.types.get("%s.%s" % (cls, f))
